@@ -84,7 +84,7 @@ def check(case):
     out = []
     model = case["model"] if "selections" in case else case
     for which, cls in (("splot", SPLOTWriter), ("pl", PLWriter)):
-        if "selections" in case and which == "pl" and len(build.names(model)) > 15:
+        if "selections" in case and which == "pl" and len(build.names(model)) > 15 and not case.get("pl"):
             continue      # the propositional export spells a cardinality group out combination by combination
         fm = build.build(model)
         text = lib(lambda: cls(None, fm).transform())
@@ -112,7 +112,7 @@ def classes(case):
     if "selections" in case:
         r = next(r for r, _ in build.iter_rels(case["model"]["root"]) if len(r["children"]) >= 10)
         return {"wide-group", "bounds:text-order-differs" if str(r["min"]) > str(r["max"]) else "bounds:plain",
-                "pl-too" if len(build.names(case["model"])) <= 15 else "splot-only"}
+                "pl-too" if len(build.names(case["model"])) <= 15 or case.get("pl") else "splot-only"}
     out = _bool.structure_classes(case)
     for c in case["ctcs"]:
         for o in set(logic.ops_of(c["ast"])):
@@ -126,6 +126,11 @@ SUBS = [
     Sub("wide-groups", check, gen=lambda tier: st.one_of(_bool.wide_group_cases(max_members=24), _bool.wide_group_cases(max_members=10)),
         nontrivial=nontrivial, classes=classes, n={"quick": 16, "thorough": 500},
         essential=["bounds:text-order-differs", "pl-too"]),
+    # the propositional export of a group of 16-17 members (tens of thousands of combinations, megabytes of text):
+    # few cases, few selections - bounds in particular arithmetic relationships to the number of members
+    Sub("pl-wide-groups", check, gen=lambda tier: _bool.wide_group_cases(min_members=16, max_members=17, few_selections=True, special_bounds=True).map(
+        lambda c: {**c, "pl": True}), nontrivial=nontrivial, classes=classes,
+        n={"quick": 2, "thorough": 12}, shards={"quick": 8, "thorough": 16}),
     Sub("constraint-shapes", check, enum=_bool.enum_constraint_shapes, nontrivial=nontrivial, classes=classes,
         exhaustive=False),
     Sub("exports", check, gen=lambda tier: S.model_specs(PROFILE, 1, 9), nontrivial=nontrivial, classes=classes,
